@@ -50,7 +50,7 @@ def replay_doc(doc, ybin, root):
         if cls == "ndjson_header_not_as_documented":
             return False, "header probe is re-run by the check itself"
         rng = M.derive(doc["seed"], "replay")
-        why = RT.run_pipeline(cx, proto, vals, parts, pipeline, rng, doc.get("cpp_batch"), doc.get("chunk_mode", "whole"), collect=doc.get("collect"))
+        why = RT.run_pipeline(cx, proto, vals, parts, pipeline, rng, doc.get("cpp_batch"), doc.get("chunk_mode", "whole"), collect=doc.get("collect"), ostate=doc.get("ostate", 0))
         return bool(why), why
     finally:
         model.close()
